@@ -552,7 +552,9 @@ class SigmaDetections:
     ) -> Self:
         try:
             if isinstance(detections["condition"], list):
-                condition = detections["condition"]
+                # own list: the parsed document can be shared between rules and the condition
+                # list is changed in place when filters are applied.
+                condition = list(detections["condition"])
             else:
                 condition = [detections["condition"]]
         except KeyError:
